@@ -1,6 +1,7 @@
 import QclibModel.Proofs.BlackBox
 import QclibModel.Proofs.BlackBoxReal
 import QclibModel.Proofs.BlackBoxRot
+import QclibModel.Proofs.BlackBoxFinal
 /-
   C19 — black-box (amplitude amplification) state preparation: after `r` rounds the flag-0 branch
   is `sin((2r+1)θ)` times the target vector.  Property theorems only; proofs live in
@@ -96,6 +97,42 @@ example : (roundStep (Real.pi / 6))^[1] (Real.sin (Real.pi / 6), Real.cos (Real.
     = ((-1) ^ 1 * Real.sin ((2 * (1 : Nat) + 1) * (Real.pi / 6)),
        (-1) ^ 1 * Real.cos ((2 * (1 : Nat) + 1) * (Real.pi / 6))) :=
   (C19_rotation (Real.pi / 6) 1).2
+
+/-- **C19 (unitarity and linearity of the modelled circuit).**  Over any commutative ring with the
+rotation laws, for every `n`, all angle lists and every state: `U†∘U = id`, `U∘U† = id`
+(`U† = gateUdg`, the list the code obtains from `gate_u.inverse()`), and every gate list acts
+linearly.  These are the facts that turn the two proved reflections into the plane recurrence. -/
+theorem C19_unitary {Θ R : Type} [AddCommGroup Θ] [CommRing R] [RotSem Θ R] [RotLaws Θ R]
+    (n : Nat) (θ φ : Nat → Θ) (ψ χ : State R) (x y : R) (c : List (BG Θ)) :
+    bsem (gateUdg n θ φ) (bsem (gateU n θ φ) ψ) = ψ ∧
+    bsem (gateU n θ φ) (bsem (gateUdg n θ φ) ψ) = ψ ∧
+    bsem c (lin x ψ y χ) = lin x (bsem c ψ) y (bsem c χ) :=
+  ⟨gateUdg_gateU n θ φ ψ, gateU_gateUdg n θ φ ψ, bsem_lin c x y ψ χ⟩
+
+/-- **C19 (whole circuit, all n, all r, all unit vectors).**  For every `n`, every number of loop
+passes `r` and every amplitude list with `Σ_{k<2^n} |a_k|² = 1` (zero amplitudes and amplitudes of
+modulus one included), the model circuit — angle lists computed as the code does
+(`theta = 2·arccos(clip|a_k|)`, `phi = −2·angle(a_k)`, evaluated over ℝ), `r` passes of
+`U; I_t; U†; I_s`, the final `U`, and the global phase `π` iff `r` is odd — applied to `|0…0⟩`
+gives on every label `b` that is zero above wire `n`:
+* flag (wire 0) = 0: exactly `sin((2r+1)θ)·a_k`, `θ = arcsin(2^{-n/2})`, `k` the index on wires `1..n`
+  (phases included, no global-phase ambiguity);
+* flag = 1: the flag-1 amplitude of `U|0…0⟩` rescaled by `cos((2r+1)θ)/cos θ` (stated without the
+  division), so the rest of the norm lies on the flag-1 branch.
+With `r = ⌊π√N/4⌋` from `C19_r` this is the property.  No hypothesis other than normalisation. -/
+theorem C19_amplification (n r : Nat) (re im : Nat → ℝ)
+    (hnorm : ∑ k ∈ Finset.range (2 ^ n), Complex.normSq ⟨re k, im k⟩ = 1) (b : Bits) :
+    let out : State ℂ :=
+      bsem (circuit n r (BlackBox.theta realTrig re im) (BlackBox.phi realTrig re im)) zeroState
+    let θ₀ : ℝ := Real.arcsin ((Real.sqrt 2)⁻¹ ^ n)
+    (ZeroAbove n b → b 0 = false →
+      out b = (Real.sin ((2 * r + 1) * θ₀) : ℂ) * ⟨re (ctrlIdx n b), im (ctrlIdx n b)⟩) ∧
+    (b 0 = true →
+      out b * (Real.cos θ₀ : ℂ) = (Real.cos ((2 * r + 1) * θ₀) : ℂ)
+        * bsem (gateU n (BlackBox.theta realTrig re im) (BlackBox.phi realTrig re im))
+            (zeroState : State ℂ) b) :=
+  ⟨fun hz h0 => amplification_full n r re im hnorm b hz h0,
+   fun h1 => amplification_flag1 n r re im hnorm b h1⟩
 
 /-- **C19 (sign).**  The circuit is its gate list times `−1` iff `r` is odd (the coded
 `global_phase = π`, and `e^{iπ} = −1`), and this factor cancels the `(−1)^r` of `C19_rotation`. -/
